@@ -196,6 +196,10 @@ def verify_fuc(spec, opts):
     spec.first_line = fnode.lineno
     prefix = []
     seen_unsupported = set()
+    from . import state as _state
+    _state.OBL_CACHE.clear()
+    del _state.DEFERRED[:]
+    all_obls = []
     while prefix is not None:
         if res.paths >= spec.max_paths:
             res.undecided.append('path budget %d exhausted' % spec.max_paths)
@@ -232,12 +236,7 @@ def verify_fuc(spec, opts):
             res.errors.append('z3: %s\n%s' % (e, traceback.format_exc(limit=6)))
         except Exception as e:  # engine bug
             res.errors.append('engine: %r\n%s' % (e, traceback.format_exc(limit=8)))
-        for ob in st.obls:
-            d = ob.as_dict()
-            d['name'] = '%s/%s' % (spec.ident, ob.name)
-            res.obligations.append(d)
-            if ob.verdict == 'unknown':
-                res.undecided.append('unknown: %s [%s]' % (d['name'], ob.path))
+        all_obls.extend(st.obls)
         for lbl in st.ghost.get('__cover__', ()):
             res.covered.add(lbl)
         res.notes.extend(n for n in st.notes if n not in res.notes)
@@ -246,6 +245,16 @@ def verify_fuc(spec, opts):
             if b not in res.bounded:
                 res.bounded.append(b)
         prefix = ctl.next_prefix()
+    _state.solve_all_deferred(o, o.get('solve_procs', 4))
+    for ob in all_obls:
+        d = ob.as_dict()
+        d['name'] = '%s/%s' % (spec.ident, ob.name)
+        d['goal'] = ob.goal
+        res.obligations.append(d)
+        if ob.verdict == 'unknown':
+            res.undecided.append('unknown: %s [%s]' % (d['name'], ob.path))
+    del _state.DEFERRED[:]
+    _state.OBL_CACHE.clear()
     res.missing_cover = [c for c in spec.cover if c not in res.covered]
     res.secs = time.time() - t0
     return res
